@@ -648,5 +648,32 @@ func buildCorpus() []seed {
 		m.ExportFunc("n1", m.AddFunc(nil, vt(i32), nil, a().I32Const(1).TableGet(0).RefIsNull().B))
 		add("elem-next-to-globals", fBR, m)
 	}
+	// decoy types of equal arity but different types: a retyped block type / signature entry then finds a
+	// same-arity alternative in the module (a type check weakened to an arity check accepts it)
+	decoys := func(m *wb.Module) (iv, li, fd, ii uint32) {
+		return m.Type(vt(i32), vt(v128)), m.Type(vt(i64), vt(i32)), m.Type(vt(f32), vt(f64)), m.Type(vt(i32), vt(i32))
+	}
+	{ // every form of `if`, in particular WITHOUT else: no params/results; (param t)(result t) with a
+		// stack-polymorphic and with an ordinary then-arm; and with else: (param t)(result u), result only.
+		// The code after each `if` drops its result, so the function stays well-typed whatever the result type.
+		m := &wb.Module{}
+		iv, _, _, ii := decoys(m)
+		m.ExportFunc("a", m.AddFunc(vt(i32), vt(i32), nil, a().LocalGet(0).If(wb.Void).Nop().End().I32Const(1).B))
+		m.ExportFunc("b", m.AddFunc(vt(i32), vt(i32), nil, a().LocalGet(0).LocalGet(0).IfT(ii).Unreachable().End().Drop().I32Const(5).B))
+		m.ExportFunc("c", m.AddFunc(vt(i32), vt(i32), nil, a().I32Const(7).LocalGet(0).IfT(ii).I32Const(1).Op(0x6a).End().B))
+		m.ExportFunc("d", m.AddFunc(vt(i32), vt(i32), nil, a().I32Const(7).LocalGet(0).IfT(iv).Drop().V128Const(1, 2).Else().Drop().V128Const(3, 4).End().Drop().I32Const(6).B))
+		m.ExportFunc("e", m.AddFunc(vt(i32), vt(i32), nil, a().LocalGet(0).If(i32).I32Const(1).Else().I32Const(2).End().B))
+		add("if-forms", fMV|fSIMD, m)
+	}
+	{ // block / loop with typed parameters as targets of br, br_if and br_table
+		m := &wb.Module{}
+		_, _, _, ii := decoys(m)
+		m.ExportFunc("bi", m.AddFunc(vt(i32), vt(i32), nil, a().I32Const(7).BlockT(ii).LocalGet(0).BrIf(0).End().B))
+		m.ExportFunc("bt", m.AddFunc(vt(i32), vt(i32), nil, a().I32Const(7).BlockT(ii).BlockT(ii).LocalGet(0).BrTable([]uint32{0, 1}, 1).End().End().B))
+		m.ExportFunc("br", m.AddFunc(vt(i32), vt(i32), nil, a().I32Const(7).BlockT(ii).Br(0).End().Drop().I32Const(4).B))
+		m.ExportFunc("lp", m.AddFunc(vt(i32), vt(i32), vt(i32), a().I32Const(7).LoopT(ii).LocalGet(1).I32Const(1).Op(0x6a).LocalTee(1).I32Const(3).Op(0x49).BrIf(0).End().B))
+		m.ExportFunc("bv", m.AddFunc(vt(i32), vt(i32), nil, a().Block(i32).I32Const(9).LocalGet(0).BrIf(0).Drop().I32Const(8).End().B))
+		add("typed-branch-targets", fMV|fSIMD, m)
+	}
 	return out
 }
